@@ -14,7 +14,12 @@ from sim.runner import RunResult, Violation
 PROP = 'C16'
 
 CRASH_TEMPLATES = ['wraps', 'wraps_annot', 'sigattr', 'fwd', 'meth', 'mod', 'deco',
-                   'asforged', 'comb', 'hostile', 'builtin', 'observed', 'instdep']
+                   'asforged', 'comb', 'hostile', 'builtin', 'observed', 'instdep', 'chain']
+
+# worlds whose descriptors carry one-shot first-use state (forger wrappers, translators' bound
+# wrappers, decorator objects); `observed` twice: its Python-level metaclass makes the first bind
+# of an implicitly transformed member a crossing
+FIRST_TEMPLATES = ['meth', 'observed', 'observed', 'deco', 'mod', 'instdep', 'asforged', 'fwd']
 
 ENTRIES = ['sigtools.signature', 'sigtools.signature(auto=False)', 'signatures.signature',
            'inspect.signature', 'specifiers.forwards']
@@ -289,6 +294,123 @@ class C16Crash(object):
                     fault_choices=rest,
                     fault_choices_meaning='[n faults, then per fault: crossing number-1 (omitted when K==1), '
                                           'index into ' + repr([k for k, _ in faults.EXC_KINDS]) + ']')
+
+
+class C16First(object):
+    """Crash points of the FIRST use.  sigtools keeps a little one-shot state on descriptors
+    stored in classes (a forger wrapper's first bind, a translator's first bound wrapper): the
+    enumeration above runs a fault-free pass first, after which that state is initialised for
+    good, so a fault can never land inside the initialisation.  Here every execution -- the
+    baseline and each faulted one -- gets a world of its own in which nothing has been bound
+    or retrieved yet, and the subject expression is evaluated *inside* the execution (binding
+    the member is part of it).  After the fault: R1 (minus the known first-bind flip D35),
+    R2, and R3: a fault-free first-style retrieval on the same world now gives what a first
+    retrieval gives on a fresh world."""
+    property_id = PROP
+    name = 'first'
+
+    def run(self, ch, cfg):
+        res = RunResult()
+        spec = worlds.draw_spec(ch, cfg['templates'], max_forged=cfg.get('max_forged', 1))
+        tpl = spec['template']
+        labels = sorted(spec['subjects'])
+        label = ch.pick(labels, 'subject')
+        entry_name = ch.pick(ENTRIES[:4], 'entry')
+        res.event('world', tpl, sorted(spec['params'].items(), key=str), label, entry_name)
+
+        def viol(clause, symptom, detail):
+            res.violations.append(Violation(PROP, clause, tpl, symptom, detail=detail,
+                                            extra=dict(subject=label, entry=entry_name)))
+
+        def execute(fault_map):
+            """Fresh world; returns (world, objects, snap, names, outcome, injector)."""
+            w = worlds.build(spec)
+            objects = snapshot.closure(w)
+            snap = snapshot.Snapshot(objects)
+            names = snap.names()
+
+            def entry():
+                return make_entry(entry_name, w.subject(label), None)()
+            with faults.Injector(fault_map, record_sites=not fault_map) as inj:
+                out = run_outcome(entry, names)
+            return w, objects, snap, names, out, inj, entry
+
+        w, objects, snap, names, out0, inj0, entry = execute({})
+        try:
+            K = inj0.count
+            sites = inj0.sites
+            res.evals += 1
+            res.steps += K
+            d = [x for x in snap.diff() if not _only_first_bind_init([x], objects)]
+            if d:
+                viol('R1-faultfree', diff_symptom(d, objects), 'first use of {0}({1}): {2}'.format(entry_name, label, d[:6]))
+                return res
+            # a second fault-free use on the same world must give the first answer again
+            out1 = run_outcome(entry, names)
+            if snapshot.freeze(out1) != snapshot.freeze(out0):
+                viol('R3-faultfree', 'second use differs from first use',
+                     'first={0} second={1}'.format(_short(out0), _short(out1)))
+                return res
+        finally:
+            w.teardown()
+        if K == 0:
+            res.key(tpl, entry_name, label, 'no-crossing', nontrivial=False)
+            return res
+        nkinds = len(faults.EXC_KINDS)
+        n = min(cfg.get('first_use_samples', 10), K * nkinds)
+        seen = set()
+        # stratified by distinct crossing site (caller line -> callee), then an occurrence of it:
+        # a site crossed once (the metaclass call of a first bind) is as likely as one crossed
+        # two hundred times
+        by_site = {}
+        for i, st in enumerate(sites):
+            by_site.setdefault(st[:2], []).append(i + 1)
+        site_keys = sorted(by_site)
+        for _ in range(n):
+            occ = by_site[site_keys[ch.draw(len(site_keys), 'site')]]
+            k, ki = occ[ch.draw(len(occ), 'occurrence')], ch.draw(nkinds, 'kind')
+            if (k, ki) in seen or (k <= len(sites) and sites[k - 1][2]):
+                continue
+            seen.add((k, ki))
+            w, objects, snap, names, out, inj, entry = execute({k: faults.EXC_KINDS[ki][1]})
+            try:
+                res.evals += 1
+                res.steps += inj.count
+                kn = faults.EXC_KINDS[ki][0]
+                res.counters['configured:' + kn] += 1
+                if not inj.fired:
+                    continue
+                res.counters['fired:' + kn] += 1
+                site = sites[k - 1][:2] if k <= len(sites) else ('?', '?')
+                res.key(tpl, entry_name, site[0], site[1], kn, nontrivial=True)
+                desc = 'first use interrupted: fault {0} at crossing {1} {2}'.format(kn, k, site)
+                d = [x for x in snap.diff() if not _only_first_bind_init([x], objects)]
+                if d:
+                    viol('R1', diff_symptom(d, objects), desc + ' diff=' + repr(d[:6]))
+                    return res
+                if _guard_container_len():
+                    viol('R2', 'recursion guard not empty', desc)
+                    return res
+                gp = snapshot.guard_probe(objects)
+                if gp:
+                    viol('R2', gp[0][1], desc + ' ' + repr(gp[:4]))
+                    return res
+                out2 = run_outcome(entry, names)
+                res.evals += 1
+                if snapshot.freeze(out2) != snapshot.freeze(out0):
+                    viol('R3', 'use after an interrupted first use differs from a first use',
+                         desc + ' first-use={0} now={1}'.format(_short(out0), _short(out2)))
+                    return res
+            finally:
+                w.teardown()
+        res.sample = dict(template=tpl, params=spec['params'], subject=label, entry=entry_name, crossings=K,
+                          injections=len(seen))
+        return res
+
+    def describe(self, choices, cfg):
+        from sim.runner import run_one
+        res = run_one(self, cfg, replay=choices)
+        return dict(sample=res.sample, violations=[v.to_json() for v in res.violations])
 
 
 def _short(out):
@@ -591,7 +713,7 @@ def _generic(c):
 
 def setup(tier):
     thorough = tier == 'thorough'
-    drivers = {'crash-enum': C16Crash(), 'crash-multi': C16Crash(), 'hist': C16Hist()}
+    drivers = {'crash-enum': C16Crash(), 'crash-multi': C16Crash(), 'crash-first': C16First(), 'hist': C16Hist()}
     cfgs = {
         'crash-enum': dict(name='crash-enum', templates=CRASH_TEMPLATES, enumerate=True,
                            max_forged=2 if thorough else 1,
@@ -601,13 +723,15 @@ def setup(tier):
         'crash-multi': dict(name='crash-multi', templates=CRASH_TEMPLATES, enumerate=False,
                             max_forged=2 if thorough else 1, full_guard_probe=True,
                             chunk=25, run_timeout=300, chunk_timeout=900),
+        'crash-first': dict(name='crash-first', templates=FIRST_TEMPLATES, max_forged=2 if thorough else 1,
+                            first_use_samples=40 if thorough else 16, chunk=10, run_timeout=300, chunk_timeout=900),
         'hist': dict(name='hist', hist_len=12 if thorough else 6, chunk=100, run_timeout=120,
                      chunk_timeout=600),
     }
     return drivers, cfgs
 
 
-PLAN = [('crash-enum', 0.6), ('crash-multi', 0.2), ('hist', 0.2)]
+PLAN = [('crash-enum', 0.5), ('crash-multi', 0.15), ('crash-first', 0.15), ('hist', 0.2)]
 
 
 def check(tier, budget=None, minimise=True):
